@@ -498,14 +498,26 @@ def run(ctx: Context):
         tw, shares = ps[2], ps[3]
         cfg = fn.cfg()
         fnm = FlowNorm(fn)
-        heads = [n for n in cfg.nodes if n.kind == "iter" and fnm.norm(n, n.ast.iter) in (tw, tw + ".items()", tw + ".keys()")]
-        if len(heads) != 1:
-            raise AnchorVanished("loop over test_and_write_vectors not found in _evaluate_write_vectors")
-        head = heads[0]
         wv = [n for n in cfg.nodes if calls_at(n, "writev")]
         if len(wv) != 1:
             raise AnchorVanished("expected exactly one writev call in _evaluate_write_vectors, found %d" % len(wv))
         wn = wv[0]
+
+        def body_of(h):
+            seen, work = set(), [d for (d, l) in cfg.succ[h.id] if l == "iter"]
+            while work:
+                x = work.pop()
+                if x in seen or x == h.id:
+                    continue
+                seen.add(x)
+                work.extend(d for (d, l) in cfg.succ[x] if l != "exc")
+            return seen
+        # the loop that applies the vectors (a separate validation pass over the same dict is not it)
+        heads = [n for n in cfg.nodes if n.kind == "iter" and fnm.norm(n, n.ast.iter) in (tw, tw + ".items()", tw + ".keys()")
+                 and wn.id in body_of(n)]
+        if len(heads) != 1:
+            raise AnchorVanished("loop over test_and_write_vectors applying writev not found in _evaluate_write_vectors")
+        head = heads[0]
         wc = calls_at(wn, "writev")[0]
         r.site(fn, wc, "writev")
         tgt = head.ast.target
